@@ -89,7 +89,7 @@ def setup():
 # version chains as lists of abstract records  (owner spec, type key, ttl, rdata text)
 
 NAMES = ["@", "a", "b", "a.b", "ns1", "*", "x" * 20]
-TYPES = ["A", "AAAA", "TXT", "MX", "NS", "CNAME"]
+TYPES = ["A", "AAAA", "TXT", "MX", "NS", "CNAME", "RRSIG:A"]  # signatures are withdrawn and re-issued record by record too
 
 
 def gen_chain(rng, nver):
@@ -191,7 +191,7 @@ def build_stream(rng, versions, k, style):
     return out
 
 
-FAULTS = ["none", "none", "none", "none", "none", "drop", "dup", "swap", "truncate", "serial", "owner", "type", "rcode", "question_name", "question_type", "surplus", "second_stream", "ttl"]
+FAULTS = ["none", "none", "none", "none", "none", "drop", "dup", "swap", "truncate", "serial", "owner", "type", "rcode", "question_name", "question_type", "surplus", "second_stream", "ttl", "soa_field", "soa_field"]
 
 
 def gen_case(seed, tier):
@@ -282,7 +282,7 @@ def make_messages(case):
         return "body"
 
     truncated = False
-    if k in ("drop", "dup", "swap", "serial", "owner", "type", "ttl") and stream:
+    if k in ("drop", "dup", "swap", "serial", "owner", "type", "ttl", "soa_field") and stream:
         info["pos_class"] = pos_class(pos)
         r = stream[pos]
         if k == "drop":
@@ -306,6 +306,24 @@ def make_messages(case):
                     parts[2] = str((old + delta) % 2**32)
                     stream[p] = (stream[p][0], "SOA", stream[p][2], " ".join(parts))
                     info["fired"] = "serial"
+                    info["pos_class"] = pos_class(p)
+                    break
+        elif k == "soa_field":
+            # same serial, another field of the SOA differs (MINIMUM, REFRESH or MNAME): for the final SOA
+            # this is no longer the record that opened the transfer, so the transfer is not complete
+            order = list(range(len(stream) - 1, -1, -1)) if f["arg"] % 3 else list(range(pos, len(stream))) + list(range(0, pos))
+            for p in order:
+                if stream[p][1] == "SOA":
+                    parts = stream[p][3].split()
+                    which = f["arg"] % 4
+                    if which == 0:
+                        parts[0] = "ns9"
+                    elif which == 1:
+                        parts[3] = str(int(parts[3]) + 1)
+                    else:
+                        parts[6] = str(int(parts[6]) + 1)
+                    stream[p] = (stream[p][0], "SOA", stream[p][2], " ".join(parts))
+                    info["fired"] = "soa_field"
                     info["pos_class"] = pos_class(p)
                     break
         elif k == "owner":
@@ -505,9 +523,9 @@ def render_messages(b, msgs, qid=4321):
             msg.question.append(dns.rrset.RRset(qn, dns.rdataclass.IN, dns.rdatatype.from_text(m["question"][1])))
         for r in m["records"]:
             name = dns.name.from_text("www.other.") if r[0] == "OUT" else (b.origin if r[0] == "@" else dns.name.from_text(r[0], b.origin))
-            rdtype, _ = Z.split_type(r[1])
+            rdtype, covers = Z.split_type(r[1])
             rd = dns.rdata.from_text(dns.rdataclass.IN, rdtype, r[3], origin=b.origin, relativize=False)
-            rrset = dns.rrset.RRset(name, dns.rdataclass.IN, rdtype)
+            rrset = dns.rrset.RRset(name, dns.rdataclass.IN, rdtype, covers)
             rrset.add(rd, r[2])
             msg.answer.append(rrset)
         out.append(msg.to_wire(max_size=65535))
